@@ -301,9 +301,26 @@ func asn1OctetString(ext *pkix.Extension, field string, size int) ([]byte, error
 	return octet, nil
 }
 
+// checkSequenceOfTwo returns an error unless der is a SEQUENCE of exactly two elements (an
+// OID and its value). encoding/asn1 skips further elements of a SEQUENCE decoded into a struct.
+func checkSequenceOfTwo(name string, der []byte) error {
+	var elements []asn1.RawValue
+	rest, err := asn1.Unmarshal(der, &elements)
+	if err != nil {
+		return fmt.Errorf("could not parse %s inside the SGX extension in PCK certificate: %v", name, err)
+	}
+	if len(rest) != 0 || len(elements) != 2 {
+		return fmt.Errorf("%s when unmarshalled is of size %d, expected 2", name, len(elements))
+	}
+	return nil
+}
+
 func extractTcbExtension(tcbExtension []asn1.RawValue, tcb *PckCertTCB) error {
 	tcbComponents := make([]byte, tcbComponentSize)
 	for _, ext := range tcbExtension {
+		if err := checkSequenceOfTwo("TCB component", ext.FullBytes); err != nil {
+			return err
+		}
 		var tcbValue pkix.AttributeTypeAndValue
 		rest, err := asn1.Unmarshal(ext.FullBytes, &tcbValue)
 		if err != nil {
@@ -379,6 +396,9 @@ func extractAsn1SequenceTcbExtension(ext asn1.RawValue) (*PckCertTCB, error) {
 }
 
 func extractAsn1OctetStringExtension(name string, extension asn1.RawValue, size int) (string, error) {
+	if err := checkSequenceOfTwo(name, extension.FullBytes); err != nil {
+		return "", err
+	}
 	var sExtension pkix.Extension
 	rest, err := asn1.Unmarshal(extension.FullBytes, &sExtension)
 	if err != nil {
